@@ -384,7 +384,7 @@ func blockedPeers(ca *connlist.ConnlistAnalyzer) []string {
 func init() {
 	families["ingress"] = family{
 		gen: func(r *Rng, id int, tier string) *Sx {
-			cfg := &genCfg{anp: r.P(25), banp: true, pods: true, ingress: true, icName: r.P(30), icNs: true, namedOnIPPct: 0, maxNP: 3, maxWl: 4}
+			cfg := &genCfg{anp: r.P(25), banp: true, pods: true, ingress: true, icName: r.P(30), namedOnIPPct: 0, maxNP: 3, maxWl: 4}
 			w := genWorld(r, cfg)
 			c := Ls(At("wcase"), Ai(int64(id)), w.Sx(), Ls(At("list"), At("-")))
 			if r.P(30) {
